@@ -19,12 +19,12 @@
   bounds, `ice!`). The Rust functions have no bound: "no fuel suffices" is
   "recurses until the stack overflows".
 
-  NOT modelled: path compression of `UnionFind::find` (`self.inner[index] =
-  new_t.clone()` on the way back) — the model looks entries up like
-  `find_ref`; `find_compress` below is the compressing version, shown
-  (`Lemmas/Unify.lean`, `compress_wf`) to keep the store acyclic and to return
-  what `find_ref` returns. The error-reporting side of `unify` (spans, the
-  `TypeError`) is irrelevant here.
+  NOT threaded through `unify`: path compression of `UnionFind::find`
+  (`self.inner[index] = new_t.clone()` on the way back) — the model looks
+  entries up like `find_ref`; `findCompress` below is the compressing version,
+  shown (`Lemmas/Unify.lean`, `findCompress_acyclic`) to return what `find_ref`
+  returns and to keep the store acyclic. The error-reporting side of `unify`
+  (spans, the `TypeError`) is irrelevant here.
 
   One model-level assertion: in the arms that bind a RECORD variable after
   `unify_fields`, the model gives up (`none`) if that variable is no longer
